@@ -209,6 +209,8 @@ package tar
 //@   props C12 C14
 //@   requires readerOK(fs) && r != nil
 //@   tracks readErr
+//@   callsite callerCancel requires "failure-recorded-before-waiters-are-released" implies(failed("readErr"), recordedErr(fs) != nil)
+//@   callsite readerDone requires "failure-recorded-before-done" implies(failed("readErr"), recordedErr(fs) != nil)
 //@   modifies world(), ghost("G|emitted"), gint("atomtag", fs.unarchiveErr), gint("atomval", fs.unarchiveErr), cancelled(fs.callerCtx), cancelled(fs.readerCtx)
 //@   ensures "failure-recorded" [C12 C14] implies(failed("readErr"), recordedErr(fs) != nil)
 //@   ensures "success-leaves-no-error" [C12] implies(!failed("readErr"), gint("atomtag", fs.unarchiveErr) == old(gint("atomtag", fs.unarchiveErr)) && gint("atomval", fs.unarchiveErr) == old(gint("atomval", fs.unarchiveErr)))
